@@ -66,6 +66,14 @@ seeded/C11-b/patch.diff C11
 seeded/C13-b/patch.diff C13
 seeded/C14-b/patch.diff C14
 seeded/C16-b/patch.diff C16
+seeded/C01-b/patch.diff C01
+seeded/C05-b/patch.diff C05
+seeded/C12-b/patch.diff C12
+seeded/C15-b/patch.diff C15
+seeded/C17-b/patch.diff C17
+seeded/C19-b/patch.diff C19
+seeded/C20-b/patch.diff C20
+seeded/C07-b/patch.diff C07
 selftest/mutants/F5-reintroduce.patch C06
 selftest/mutants/F6-reintroduce.patch C06
 LIST
